@@ -78,6 +78,7 @@ package buffer
 //@   loop 1 invariant vv.size - count == old(vv.size) - old(count)
 //@   loop 1 invariant arr(vv.views) == old(arr(vv.views)) && off(vv.views) + len(vv.views) == old(off(vv.views) + len(vv.views))
 //@   loop 1 invariant off(vv.views) >= old(off(vv.views))
+//@   loop 1 decreases len(vv.views)
 //@   modifies vv.size, vv.views, elems(vv.views)
 
 // CapLength(length) keeps the first min(size, max(length,0)) bytes.
